@@ -293,3 +293,199 @@ Proof.
     + constructor; [reflexivity|]. constructor; [reflexivity|constructor].
   - vm_compute. split; [reflexivity|eexists; reflexivity].
 Qed.
+
+(* ------------------------------------------------------------------------------------------
+   Round 12, Earley half for the DYNAMIC lexers at the level of the error REPORT.
+   Model: Earley/Dyn.v (xearley._parse / scan, tied per column by C01) + Earley/DynReport.v (what the raise sites pass:
+   position, the main loop's line/column, {item.expect.name for item in to_scan}, set(to_scan), frozenset(i.s ...));
+   the raise sites and their decision conditions are pinned / regenerated by translator/gen_earley.py
+   (Gen/EarleySteps.v).  Specification: the position graph read as tilings of the text by token types - every token
+   a lexeme the scanner explores, ignored matches before each token and after the last (Earley/DynReport_proofs.v) -
+   against the token-level notions [viable] / [productive_bodies] of the basic-lexer theorems above. *)
+From LV Require Import Earley.Alg_proofs Earley.Dyn Earley.Dyn_proofs Earley.DynReport Earley.DynReport_proofs Pos.Coord
+  Gen.EarleySteps Earley.Steps Earley.Steps_proofs Gen.ErrorSites.
+
+(* the language of the dynamic lexers at token level: some tiling of the whole text is a sentence *)
+Theorem C08_dynamic_tilings G start n rmatch rtrunc complete_lex ignore :
+  gsentence G start n rmatch rtrunc complete_lex ignore <->
+  exists u, derives G nat Nat.eqb [NT start] u /\ tiles rmatch rtrunc complete_lex ignore u 0 n.
+Proof. exact (gsentence_tiles G start n rmatch rtrunc complete_lex ignore). Qed.
+Print Assumptions C08_dynamic_tilings.
+
+(* the set the model reports at position k (allowed of UnexpectedCharacters, expected of UnexpectedEOF) is EXACTLY the
+   set of terminals t such that some tiling u of the consumed text 0..k extended by t is a viable prefix *)
+Theorem C08_dynamic_expected_exact G start n rmatch rtrunc complete_lex ignore k t :
+  fwd rmatch rtrunc -> productive_bodies G nat Nat.eqb ->
+  k < length (d_cols (dyn_parse G start n rmatch rtrunc complete_lex ignore)) ->
+  (In t (scan_expected (colf (d_scans (dyn_parse G start n rmatch rtrunc complete_lex ignore)) k)) <->
+   exists u, tiles rmatch rtrunc complete_lex ignore u 0 k /\ viable G nat Nat.eqb start (u ++ [t])).
+Proof.
+  exact (fun Hf Hp Hk => conj (dyn_expected_sound G start n rmatch rtrunc complete_lex ignore Hf k t Hp Hk)
+           (fun '(ex_intro _ u (conj Tu Hv)) =>
+              dyn_expected_complete G start n rmatch rtrunc complete_lex ignore Hf k t u Hk Tu Hv)).
+Qed.
+Print Assumptions C08_dynamic_expected_exact.
+
+(* an UnexpectedCharacters at i is never early: no viable reading of the text reaches beyond i (no productivity needed) *)
+Theorem C08_dynamic_error_not_early G start n rmatch rtrunc complete_lex ignore i j u :
+  fwd rmatch rtrunc ->
+  d_out (dyn_parse G start n rmatch rtrunc complete_lex ignore) = DRejectChar i -> i < j ->
+  tiles rmatch rtrunc complete_lex ignore u 0 j -> ~ viable G nat Nat.eqb start u.
+Proof. exact (fun Hf => dyn_error_not_early G start n rmatch rtrunc complete_lex ignore Hf i j u). Qed.
+Print Assumptions C08_dynamic_error_not_early.
+
+(* the UnexpectedCharacters report: position inside the text, (line, column) = the source coordinates of that position,
+   considered_tokens = the chart items at that position that expect a terminal, allowed = their terminals = exactly the
+   legal continuations, state = their (rule, ptr) pairs; nothing viable beyond the position *)
+Theorem C08_dynamic_report_chars G start rmatch rtrunc complete_lex ignore (text : list nat)
+        pos line col allowed considered state :
+  fwd rmatch rtrunc ->
+  dyn_report text (dyn_parse G start (length text) rmatch rtrunc complete_lex ignore)
+    = Some (RepChars pos line col allowed considered state) ->
+  d_out (dyn_parse G start (length text) rmatch rtrunc complete_lex ignore) = DRejectChar pos /\ pos < length text /\
+  (line, col) = coord Nat.eqb 10 text pos /\
+  (forall x, In x considered <->
+             gchart G start rmatch rtrunc complete_lex ignore pos x /\ is_term_item x = true) /\
+  allowed = scan_expected considered /\ state = map item_state considered /\
+  (forall t u, tiles rmatch rtrunc complete_lex ignore u 0 pos -> viable G nat Nat.eqb start (u ++ [t]) -> In t allowed) /\
+  (productive_bodies G nat Nat.eqb -> forall t, In t allowed ->
+     exists u, tiles rmatch rtrunc complete_lex ignore u 0 pos /\ viable G nat Nat.eqb start (u ++ [t])) /\
+  (forall j u, pos < j -> tiles rmatch rtrunc complete_lex ignore u 0 j -> ~ viable G nat Nat.eqb start u).
+Proof.
+  exact (fun Hf => dyn_report_chars G start (length text) rmatch rtrunc complete_lex ignore Hf text
+                     pos line col allowed considered state eq_refl).
+Qed.
+Print Assumptions C08_dynamic_report_chars.
+
+(* the UnexpectedEOF report: the whole text was read, no tiling of it is a sentence, expected = exactly the legal
+   continuations of the whole text *)
+Theorem C08_dynamic_report_eof G start n rmatch rtrunc complete_lex ignore (text : list nat) expected state :
+  fwd rmatch rtrunc ->
+  dyn_report text (dyn_parse G start n rmatch rtrunc complete_lex ignore) = Some (RepEOF expected state) ->
+  d_out (dyn_parse G start n rmatch rtrunc complete_lex ignore) = DRejectEOF /\
+  ~ gsentence G start n rmatch rtrunc complete_lex ignore /\
+  (forall t u, tiles rmatch rtrunc complete_lex ignore u 0 n -> viable G nat Nat.eqb start (u ++ [t]) -> In t expected) /\
+  (productive_bodies G nat Nat.eqb -> forall t, In t expected ->
+     exists u, tiles rmatch rtrunc complete_lex ignore u 0 n /\ viable G nat Nat.eqb start (u ++ [t])) /\
+  exists q, (forall x, In x q <-> gchart G start rmatch rtrunc complete_lex ignore n x /\ is_term_item x = true) /\
+            expected = scan_expected q /\ state = map item_state q.
+Proof.
+  exact (fun Hf => dyn_report_eof G start n rmatch rtrunc complete_lex ignore Hf text expected state).
+Qed.
+Print Assumptions C08_dynamic_report_eof.
+
+(* Non-vacuity, and finding F52 at model level.  start: A B, A: "ab", B: "c", text "ab  d" (a b blank blank d).
+   Without %ignore the report is UnexpectedCharacters at offset 2 (line 1, column 3) with allowed = {B}.
+   With  %ignore "b  "  the ignored terminal matches text[1:4], i.e. it starts INSIDE the pending match of A, where
+   the column is empty: scan(1) executes delayed_matches[4].extend([]) and creates key 4; `not delayed_matches` is
+   then false at scan(2), and the error is raised only at scan(3): offset 3, column 4, allowed = {} - although no
+   chart item exists at 3 and position 2 is the last one a viable reading reaches.  So the reported position is not
+   always the first offending one (never early by the theorem above, but it can be LATE): lark agrees with the model. *)
+Definition f52_G : grammar := [mkRule 0 [T 0; T 1]].
+Definition f52_re (t i : nat) : option nat := match t, i with 0, 0 => Some 2 | 2, 1 => Some 4 | _, _ => None end.
+Definition f52_text : list nat := [97; 98; 32; 32; 100].
+
+Example C08_dynamic_report_example :
+  fwd f52_re (fun _ _ _ => None) /\ productive_bodies f52_G nat Nat.eqb /\
+  dyn_report f52_text (dyn_parse f52_G 0 5 f52_re (fun _ _ _ => None) false [])
+  = Some (RepChars 2 1 3 [1] [mkItem (mkRule 0 [T 0; T 1]) 1 0] [(mkRule 0 [T 0; T 1], 1)]).
+Proof.
+  split; [|split].
+  - split; [|discriminate]. intros [|[|[|t]]] [|[|i]] j H; inversion H; auto.
+  - intros r d [<-|[]]. destruct d as [|[|d]]; simpl.
+    + exists [0; 1]. repeat constructor.
+    + exists [1]. repeat constructor.
+    + exists []. destruct d; constructor.
+  - vm_compute. reflexivity.
+Qed.
+
+Example C08_dynamic_error_late_refuted :
+  let res := dyn_parse f52_G 0 5 f52_re (fun _ _ _ => None) false [2] in
+  d_out res = DRejectChar 3 /\
+  dyn_report f52_text res = Some (RepChars 3 1 4 [] [] []) /\
+  (forall x, ~ gchart f52_G 0 f52_re (fun _ _ _ => None) false [2] 3 x) /\
+  (exists x, gchart f52_G 0 f52_re (fun _ _ _ => None) false [2] 2 x /\ expect x = Some (T 1)).
+Proof.
+  assert (F : fwd f52_re (fun _ _ _ => None)).
+  { split; [|discriminate]. intros [|[|[|t]]] [|[|i]] j H; inversion H; auto. }
+  cbv zeta. split; [vm_compute; reflexivity|]. split; [vm_compute; reflexivity|]. split.
+  - intros x Hx.
+    apply (dyn_trace_is_gchart f52_G 0 5 f52_re (fun _ _ _ => None) false [2] F 3 x) in Hx;
+      [|vm_compute; auto].
+    vm_compute in Hx. destruct Hx as [[]|[]].
+  - exists (mkItem (mkRule 0 [T 0; T 1]) 1 0). split; [|reflexivity].
+    apply (dyn_trace_is_gchart f52_G 0 5 f52_re (fun _ _ _ => None) false [2] F 2); [vm_compute; auto|].
+    right. vm_compute. left. reflexivity.
+Qed.
+
+(* F10: productivity of the rule bodies is NECESSARY for the valid-prefix property.  start: A x | A B; x: C x.
+   After "a c" the chart still holds an item although no sentence starts with a c, and it expects C. *)
+Definition f10_G : grammar := [mkRule 0 [T 0; NT 1]; mkRule 0 [T 0; T 1]; mkRule 1 [T 2; NT 1]].
+Lemma f10_x_dead : forall ss (u : list nat), derives f10_G nat Nat.eqb ss u -> ~ In (NT 1) ss.
+Proof.
+  induction 1 as [| t k ss w Hm Hd IH | a r ss w1 w2 Hr Hl Hd1 IH1 Hd2 IH2]; intros Hin.
+  - destruct Hin.
+  - destruct Hin as [E|Hin]; [discriminate|]. auto.
+  - destruct Hin as [E|Hin]; [|auto]. inversion E as [Ea]. rewrite Ea in Hl.
+    destruct Hr as [<-|[<-|[<-|[]]]]; simpl in Hl; try discriminate. apply IH1. simpl. auto.
+Qed.
+Example C08_nonproductive_refuted :
+  ~ productive_bodies f10_G nat Nat.eqb /\
+  chart f10_G nat Nat.eqb [0; 2; 2] 0 2 (mkItem (mkRule 1 [T 2; NT 1]) 1 1) /\
+  expects f10_G nat Nat.eqb 0 [0; 2; 2] 2 2 /\
+  ~ viable f10_G nat Nat.eqb 0 [0; 2].
+Proof.
+  assert (C1 : chart f10_G nat Nat.eqb [0; 2; 2] 0 1 (mkItem (mkRule 0 [T 0; NT 1]) 1 0)).
+  { eapply c_scan with (t := 0) (x := 0); [apply c_init; simpl; auto|reflexivity|reflexivity|reflexivity]. }
+  assert (C2 : chart f10_G nat Nat.eqb [0; 2; 2] 0 1 (mkItem (mkRule 1 [T 2; NT 1]) 0 1)).
+  { eapply c_pred with (a := 1); [exact C1|reflexivity|simpl; auto|reflexivity]. }
+  assert (C3 : chart f10_G nat Nat.eqb [0; 2; 2] 0 2 (mkItem (mkRule 1 [T 2; NT 1]) 1 1)).
+  { eapply c_scan with (t := 2) (x := 2); [exact C2|reflexivity|reflexivity|reflexivity]. }
+  split; [|split; [exact C3|split]].
+  - intros Hp. destruct (Hp (mkRule 1 [T 2; NT 1]) 0) as (u & Hu); [simpl; auto|].
+    simpl in Hu. apply (f10_x_dead _ _ Hu). simpl. auto.
+  - exists (mkRule 1 [T 2; NT 1]), 0, 2. split; [|reflexivity].
+    eapply c_pred with (a := 1); [exact C3|reflexivity|simpl; auto|reflexivity].
+  - intros (v & Hv). simpl in Hv.
+    inversion Hv as [| |a r ss w1 w2 Hr Hl Hd1 Hd2 Ea Ew]. subst a ss.
+    destruct Hr as [<-|[<-|[<-|[]]]]; simpl in Hl; try discriminate.
+    + apply (f10_x_dead _ _ Hd1). simpl. auto.
+    + inversion Hd2; subst w2. rewrite app_nil_r in Ew. subst w1.
+      inversion Hd1 as [|t k ss w Hm Hd' E1 E2|]; subst.
+      inversion Hd' as [|t' k' ss' w' Hm' Hd'' E1' E2'|]; subst. simpl in Hm'. discriminate.
+Qed.
+
+(* the decisions of the two Earley engines on WHEN to raise which error are the conditions of the source
+   (the tests before raise UnexpectedToken / UnexpectedEOF / UnexpectedCharacters, regenerated into Gen/EarleySteps.v) *)
+Theorem C08_earley_error_decisions_are_source :
+  (forall G predictions (tok : Type) tmatch start (toks : list tok),
+     Alg.r_out (Alg.parse G predictions tok tmatch start toks) =
+     Alg.r_out (Steps.g_parse G predictions tok tmatch start toks)) /\
+  (forall G predictions start n rmatch rtrunc_rel complete_lex ignore,
+     Dyn.d_out (Dyn.dparse G predictions start n rmatch (rtrunc_abs rtrunc_rel) complete_lex ignore) =
+     Dyn.d_out (Steps.g_dparse G predictions start n rmatch rtrunc_rel complete_lex ignore)).
+Proof.
+  exact (conj (fun G p tok tm s toks => f_equal Alg.r_out (parse_gen G p tok tm s toks))
+              (fun G p s n rm rt cl ig => f_equal Dyn.d_out (dparse_gen G p s rm rt cl ig n))).
+Qed.
+Print Assumptions C08_earley_error_decisions_are_source.
+
+(* LALR + contextual lexer, an error that the state's lexer raises and the root lexer turns into an UnexpectedToken
+   (ContextualLexer.lex, pinned by Gen/ErrorSites.v): its `expected` is the `allowed` of the state's lexer, i.e. the
+   terminals of that lexer (state's terminals | ignore | always_accept, those known by name) minus the ignored ones.
+   Every terminal the parser accepts in that state is among the state's terminals (accepts() tries exactly the keys of
+   the state's row, Gen/InterHoles.v), so it belongs to expected - unless it is itself %ignore'd. *)
+Theorem C08_contextual_fallback_expected_covers_accepts
+        (state_terms ignore always_accept : list nat) (known : nat -> bool) (t : nat) :
+  let lexer_terms := filter known (ctx_state_terminals state_terms ignore always_accept) in
+  let allowed := filter (fun x => negb (existsb (Nat.eqb x) ignore)) lexer_terms in
+  In t state_terms -> known t = true -> ~ In t ignore ->
+  In t (ctx_fallback_expected allowed).
+Proof.
+  cbv zeta. unfold ctx_fallback_expected, ctx_state_terminals. intros Ht Hk Hi.
+  apply filter_In. split.
+  - apply filter_In. split; auto. apply in_or_app. auto.
+  - apply negb_true_iff. destruct (existsb (Nat.eqb t) ignore) eqn:E; auto.
+    apply existsb_exists in E. destruct E as (y & Hy & He). apply Nat.eqb_eq in He. subst y. contradiction.
+Qed.
+Print Assumptions C08_contextual_fallback_expected_covers_accepts.
